@@ -403,16 +403,25 @@ Definition ports_ok (d : design) : bool :=
 (** ** sensitivity lists.  Reads that happen only under a clock-edge test need no entry: the
     guarded branch can only run in a delta in which the tested clock has an event. *)
 
-Definition is_edge (e : expr) : option positive :=
-  match e with EEdge _ x => Some x | _ => None end.
+(** the clocks of a guard that is an edge test or a disjunction of edge tests *)
+Fixpoint edge_clocks (e : expr) : option (list positive) :=
+  match e with
+  | EEdge _ x => Some [x]
+  | EBin OOr a b =>
+      match edge_clocks a, edge_clocks b with
+      | Some ca, Some cb => Some (ca ++ cb)
+      | _, _ => None
+      end
+  | _ => None
+  end.
 
 Fixpoint unguarded_reads (s : stmt) (acc : list positive) {struct s} : list positive :=
   match s with
   | SNull => acc
   | SSig _ p e | SVar _ p e => reads_path p (reads_expr e acc)
   | SIf c a b =>
-      match is_edge c with
-      | Some clk => clk :: unguarded_reads b acc
+      match edge_clocks c with
+      | Some clks => clks ++ unguarded_reads b acc
       | None => reads_expr c (unguarded_reads a (unguarded_reads b acc))
       end
   | SCase e ar => reads_expr e (arms_unguarded ar acc)
@@ -486,3 +495,643 @@ Definition assoc_ok (G : tenv) (a : assoc) : bool :=
       end
   | _ => ty_is (typeof G (Some a.(as_formal)) a.(as_actual)) a.(as_formal)
   end.
+
+(** * Soundness of the static typing against the executable semantics ([Sem]) *)
+
+
+Definition runtime_err (e : err) : bool := match e with EDivZero | ERange => true | _ => false end.
+Definition store_ok (M : PM.t ty) (st : store) : Prop :=
+  forall x t, PM.find x M = Some t -> exists v, PM.find x st = Some v /\ has_ty t v = true.
+Definition res_ok {A} (P : A -> Prop) (r : res A) : Prop :=
+  match r with Ok a => P a | Err e => runtime_err e = true end.
+
+(** ** generic facts *)
+
+Lemma res_ok_bind {A B} (P : A -> Prop) (Q : B -> Prop) (r : res A) (f : A -> res B) :
+  res_ok P r -> (forall a, r = Ok a -> P a -> res_ok Q (f a)) -> res_ok Q (bind r f).
+Proof. destruct r as [a|e]; cbn [res_ok bind]; intros H K; [apply K; [reflexivity|exact H]|exact H]. Qed.
+
+Lemma res_ok_weaken {A} (P Q : A -> Prop) (r : res A) :
+  res_ok P r -> (forall a, P a -> Q a) -> res_ok Q r.
+Proof. destruct r as [a|e]; cbn [res_ok]; intros H K; [apply K; exact H|exact H]. Qed.
+
+(** ** inversion of [has_ty] *)
+
+Lemma has_ty_logic v : has_ty TLogic v = true -> exists b, v = VL b.
+Proof. destruct v; cbn [has_ty]; try discriminate. eauto. Qed.
+
+Lemma has_ty_bool v : has_ty TBool v = true -> exists b, v = VB b.
+Proof. destruct v; cbn [has_ty]; try discriminate. eauto. Qed.
+
+Lemma has_ty_int v : has_ty TInt v = true -> exists z, v = VI z.
+Proof. destruct v; cbn [has_ty]; try discriminate. eauto. Qed.
+
+Lemma has_ty_vec k w v : has_ty (TVec k w) v = true -> exists x, v = VV k w x /\ 0 <= x < pow2 w.
+Proof.
+  destruct v as [|k' w' x| | | |]; cbn [has_ty]; try discriminate.
+  rewrite !andb_true_iff, vkind_eqb_ok, N.eqb_eq, Z.leb_le, Z.ltb_lt.
+  intros [[[Hk Hw] H0] H1]. subst k' w'. exists x. split; [reflexivity|lia].
+Qed.
+
+Lemma has_ty_enum i n v : has_ty (TEnum i n) v = true -> exists k, v = VE k.
+Proof. destruct v; cbn [has_ty]; try discriminate. eauto. Qed.
+
+Lemma has_ty_arr i n e v : has_ty (TArr i n e) v = true ->
+  exists l, v = VA l /\ N.of_nat (length l) = n /\ forallb (has_ty e) l = true.
+Proof.
+  destruct v as [| | | | |l]; cbn [has_ty]; try discriminate.
+  rewrite andb_true_iff, N.eqb_eq. intros [H1 H2]. exists l. auto.
+Qed.
+
+Lemma has_ty_vec_intro k w x : 0 <= x < pow2 w -> has_ty (TVec k w) (VV k w x) = true.
+Proof.
+  intros H. cbn [has_ty]. rewrite !andb_true_iff. split; [split; [split|]|].
+  - apply vkind_eqb_ok; reflexivity.
+  - apply N.eqb_refl.
+  - apply Z.leb_le; lia.
+  - apply Z.ltb_lt; lia.
+Qed.
+
+Lemma has_ty_arr_intro i e l : forallb (has_ty e) l = true -> has_ty (TArr i (N.of_nat (length l)) e) (VA l) = true.
+Proof. intros H. cbn [has_ty]. rewrite N.eqb_refl. exact H. Qed.
+
+Ltac inv_ty :=
+  repeat match goal with
+  | H : has_ty TLogic ?v = true |- _ => apply has_ty_logic in H; destruct H as [? ->]
+  | H : has_ty TBool ?v = true |- _ => apply has_ty_bool in H; destruct H as [? ->]
+  | H : has_ty TInt ?v = true |- _ => apply has_ty_int in H; destruct H as [? ->]
+  | H : has_ty (TVec _ _) ?v = true |- _ => apply has_ty_vec in H; destruct H as [? [-> ?]]
+  | H : has_ty (TEnum _ _) ?v = true |- _ => apply has_ty_enum in H; destruct H as [? ->]
+  | H : has_ty (TArr _ _ _) ?v = true |- _ => apply has_ty_arr in H; destruct H as [? [-> [? ?]]]
+  end.
+
+Ltac dif H E := match type of H with (if ?c then _ else _) = _ => destruct c eqn:E; [|discriminate H] end.
+
+(** ** range facts *)
+
+Lemma lt_pow2_shiftr x n : 0 <= n -> 0 <= x -> (x < 2 ^ n <-> Z.shiftr x n = 0).
+Proof.
+  intros Hn Hx. rewrite Z.shiftr_div_pow2 by lia.
+  assert (0 < 2 ^ n) by (apply Z.pow_pos_nonneg; lia).
+  rewrite Z.div_small_iff by lia. lia.
+Qed.
+
+Lemma logic_z_range op w a b : 0 <= a < pow2 w -> 0 <= b < pow2 w -> 0 <= logic_z op a b < pow2 w.
+Proof.
+  intros Ha Hb. unfold pow2 in *.
+  assert (Hn : 0 <= Z.of_N w) by lia.
+  assert (Sa : Z.shiftr a (Z.of_N w) = 0) by (apply lt_pow2_shiftr; lia).
+  assert (Sb : Z.shiftr b (Z.of_N w) = 0) by (apply lt_pow2_shiftr; lia).
+  assert (Hnn : 0 <= logic_z op a b).
+  { destruct op; cbn [logic_z];
+      first [ apply Z.land_nonneg; lia | apply Z.lor_nonneg; lia | apply Z.lxor_nonneg; split; lia ]. }
+  split; [exact Hnn|]. apply lt_pow2_shiftr; [lia|exact Hnn|].
+  destruct op; cbn [logic_z]; rewrite ?Z.shiftr_land, ?Z.shiftr_lor, ?Z.shiftr_lxor, Sa, Sb; reflexivity.
+Qed.
+
+Lemma concat_range wa wb va vb : 0 <= va < pow2 wa -> 0 <= vb < pow2 wb -> 0 <= va * pow2 wb + vb < pow2 (wa + wb).
+Proof. intros Ha Hb. rewrite pow2_add. pose proof (pow2_pos wb). nia. Qed.
+
+Lemma pow2_pred n : n <> 0%N -> pow2 n = 2 * pow2 (n - 1).
+Proof. intros H. replace n with (N.succ (n - 1)) at 1 by lia. apply pow2_succ. Qed.
+
+Lemma sresize_range w v n : 0 <= sresize w v n < pow2 n.
+Proof.
+  unfold sresize. destruct (N.eqb_spec n 0) as [->|Hn].
+  - rewrite pow2_0. lia.
+  - destruct (w <=? n)%N.
+    + apply wrap_range.
+    + pose proof (pow2_pred n Hn). pose proof (wrap_range (n - 1) v). pose proof (pow2_pos (n - 1)).
+      destruct (bitof v (w - 1)); lia.
+Qed.
+
+(** ** operators *)
+
+Lemma mk_int_ok z : res_ok (fun v => has_ty TInt v = true) (mk_int z).
+Proof. unfold mk_int. destruct (_ && _); reflexivity. Qed.
+
+Ltac fin :=
+  repeat match goal with
+  | |- res_ok _ (if ?c then _ else _) => destruct c
+  | |- res_ok _ (Err _) => reflexivity
+  | |- res_ok _ (mk_int _) => apply mk_int_ok
+  | |- res_ok _ (Ok _) => cbn [res_ok]
+  | |- has_ty _ (mkU _ _) = true => unfold mkU; apply has_ty_vec_intro, wrap_range
+  | |- has_ty _ (mkS _ _) = true => unfold mkS; apply has_ty_vec_intro, wrap_range
+  end.
+
+Definition is_arith (op : binop) : bool :=
+  match op with OAdd | OSub | OMul | ODiv | OMod | ORem => true | _ => false end.
+
+Lemma arith_sound op ta tb t a b : is_arith op = true -> arith_ty op ta tb = Some t ->
+  has_ty ta a = true -> has_ty tb b = true -> res_ok (fun v => has_ty t v = true) (arith op a b).
+Proof.
+  intros Hop H Ha Hb.
+  destruct ta as [| | |ka wa| |], tb as [| | |kb wb| |]; cbn [arith_ty] in H; try discriminate H; inv_ty;
+    repeat match goal with k : vkind |- _ => destruct k end;
+    cbn [is_num vkind_eqb andb] in H; try discriminate H;
+    destruct op; try discriminate Hop; injection H as <-; cbn [arith]; fin.
+Qed.
+
+Lemma logic_sound op ta tb t a b : logic_ty ta tb = Some t ->
+  has_ty ta a = true -> has_ty tb b = true -> res_ok (fun v => has_ty t v = true) (logic op a b).
+Proof.
+  intros H Ha Hb.
+  destruct ta as [| | |ka wa| |], tb as [| | |kb wb| |]; cbn [logic_ty] in H; try discriminate H; inv_ty.
+  - injection H as <-. reflexivity.
+  - injection H as <-. reflexivity.
+  - dif H E. injection H as <-. apply andb_true_iff in E. destruct E as [Ek Ew].
+    apply vkind_eqb_ok in Ek. apply N.eqb_eq in Ew. subst kb wb.
+    cbn [logic]. replace (vkind_eqb ka ka) with true by (symmetry; apply vkind_eqb_ok; reflexivity).
+    rewrite N.eqb_refl. cbn [res_ok]. apply has_ty_vec_intro, logic_z_range; assumption.
+Qed.
+
+Lemma concat_sound ta tb t a b : concat_ty ta tb = Some t ->
+  has_ty ta a = true -> has_ty tb b = true -> res_ok (fun v => has_ty t v = true) (concat a b).
+Proof.
+  intros H Ha Hb.
+  destruct ta as [| | |ka wa| |], tb as [| | |kb wb| |]; cbn [concat_ty] in H; try discriminate H; inv_ty.
+  - injection H as <-. cbn [concat res_ok]. apply has_ty_vec_intro. change (pow2 2) with 4.
+    match goal with |- context[if ?x then 2 else 0] => destruct x end;
+    match goal with |- context[if ?y then 1 else 0] => destruct y end; lia.
+  - injection H as <-. cbn [concat res_ok]. apply has_ty_vec_intro.
+    rewrite pow2_add. change (pow2 1) with 2.
+    match goal with |- context[if ?x then _ else 0] => destruct x end; lia.
+  - injection H as <-. cbn [concat res_ok]. apply has_ty_vec_intro.
+    rewrite pow2_add. change (pow2 1) with 2.
+    match goal with |- context[if ?x then 1 else 0] => destruct x end; lia.
+  - dif H E. injection H as <-. cbn [concat]. rewrite E. cbn [res_ok].
+    apply has_ty_vec_intro, concat_range; assumption.
+Qed.
+
+Lemma cmp_sound op ta tb t a b : is_cmp op = true -> cmp_ty op ta tb = Some t ->
+  has_ty ta a = true -> has_ty tb b = true -> res_ok (fun v => has_ty t v = true) (compare op a b).
+Proof.
+  intros Hop H Ha Hb.
+  destruct ta as [| | |ka wa|ia na|], tb as [| | |kb wb|ib nb|]; cbn [cmp_ty] in H; try discriminate H;
+    repeat match goal with k : vkind |- _ => destruct k end;
+    cbn [cmp_ty is_num vkind_eqb andb] in H; try discriminate H; inv_ty;
+    try (injection H as <-; destruct op; try discriminate Hop; cbn [compare is_eqop]; fin; reflexivity).
+  - (* slv = slv *)
+    destruct (is_eqop op) eqn:Eo; cbn [andb] in H; [|discriminate H]. dif H E. injection H as <-.
+    cbn [compare]. rewrite Eo. reflexivity.
+  - (* enum *)
+    dif H E. injection H as <-. reflexivity.
+Qed.
+
+Lemma binop_sound op ta tb t a b : binop_ty op ta tb = Some t ->
+  has_ty ta a = true -> has_ty tb b = true -> res_ok (fun v => has_ty t v = true) (eval_binop op a b).
+Proof.
+  intros H Ha Hb. destruct op; cbn [binop_ty eval_binop] in *;
+  first [ eapply arith_sound; [|exact H|exact Ha|exact Hb]; reflexivity
+        | exact (logic_sound _ _ _ _ _ _ H Ha Hb)
+        | exact (concat_sound _ _ _ _ _ H Ha Hb)
+        | eapply cmp_sound; [|exact H|exact Ha|exact Hb]; reflexivity ].
+Qed.
+
+Lemma unop_sound op ta t a : unop_ty op ta = Some t -> has_ty ta a = true ->
+  res_ok (fun v => has_ty t v = true) (eval_unop op a).
+Proof.
+  intros H Ha.
+  destruct op, ta as [| | |k w| |]; cbn [unop_ty] in H; try discriminate H;
+    repeat match goal with k : vkind |- _ => destruct k end; try discriminate H;
+    injection H as <-; inv_ty; cbn [eval_unop]; fin; try reflexivity;
+    apply has_ty_vec_intro; unfold ones; lia.
+Qed.
+
+Lemma fn1_sound f ta t a : fn1_ty f ta = Some t -> has_ty ta a = true ->
+  res_ok (fun v => has_ty t v = true) (eval_fn1 f a).
+Proof.
+  intros H Ha.
+  destruct f, ta as [| | |k w| |]; cbn [fn1_ty] in H; try discriminate H;
+    repeat match goal with k : vkind |- _ => destruct k end; cbn [is_num] in H; try discriminate H;
+    injection H as <-; inv_ty; cbn [eval_fn1]; fin; try reflexivity;
+    apply has_ty_vec_intro; assumption.
+Qed.
+
+Lemma fn2_sound f ta tb bw t a b : fn2_ty f ta tb bw = Some t ->
+  has_ty ta a = true -> has_ty tb b = true ->
+  (forall n, bw = Some n -> exists z, b = VI z /\ nat_ok z = true /\ n = Z.to_N z) ->
+  res_ok (fun v => has_ty t v = true) (eval_fn2 f a b).
+Proof.
+  intros H Ha Hb Hbw.
+  destruct f, ta as [| | |k w| |], tb as [| | |k' w'| |]; cbn [fn2_ty] in H; try discriminate H;
+    repeat match goal with k : vkind |- _ => destruct k end; cbn [is_num] in H; try discriminate H; inv_ty.
+  all: try (injection H as <-; cbn [eval_fn2]; fin; fail).
+  all: destruct bw as [n|]; cbn [option_map] in H; try discriminate H; injection H as <-;
+       destruct (Hbw n eq_refl) as [z [Ez [Hz En]]]; injection Ez as Ez; subst;
+       cbn [eval_fn2]; fin; apply has_ty_vec_intro; first [apply wrap_range | apply sresize_range].
+Qed.
+
+Lemma index_vec_sound k w a n : has_ty (TVec k w) a = true -> has_ty TInt n = true ->
+  res_ok (fun v => has_ty TLogic v = true) (index_val a n).
+Proof. intros Ha Hn. inv_ty. cbn [index_val]. fin. reflexivity. Qed.
+
+Lemma forallb_nth_error {A} (p : A -> bool) l n x : forallb p l = true -> nth_error l n = Some x -> p x = true.
+Proof. intros H E. apply nth_error_In in E. rewrite forallb_forall in H. apply H. exact E. Qed.
+
+Lemma index_arr_sound i m e a n : has_ty (TArr i m e) a = true -> has_ty TInt n = true ->
+  res_ok (fun v => has_ty e v = true) (index_val a n).
+Proof.
+  intros Ha Hn. inv_ty. cbn [index_val].
+  match goal with |- context[nth_error ?l ?k] => destruct (nth_error l k) eqn:E end; fin.
+  eapply forallb_nth_error; eauto.
+Qed.
+
+Lemma slice_sound k w hi lo a : has_ty (TVec k w) a = true -> ((lo <=? hi)%N && (hi <? w)%N) = true ->
+  res_ok (fun v => has_ty (TVec k (hi - lo + 1)) v = true) (slice_val a hi lo).
+Proof.
+  intros Ha H. inv_ty. cbn [slice_val]. rewrite H. cbn [res_ok].
+  apply has_ty_vec_intro, getslice_range.
+Qed.
+
+Lemma lit_ty_sound h v t : lit_ty h v = Some t -> has_ty t v = true.
+Proof.
+  intros H. destruct v as [b|k w x|b|z|k|l]; cbn [lit_ty scalar_ty] in H.
+  - injection H as <-. reflexivity.
+  - dif H E. injection H as <-. apply andb_true_iff in E. destruct E as [E1 E2].
+    apply Z.leb_le in E1. apply Z.ltb_lt in E2. apply has_ty_vec_intro. lia.
+  - injection H as <-. reflexivity.
+  - injection H as <-. reflexivity.
+  - destruct h as [t0|]; [|discriminate H]. dif H E. injection H as <-. exact E.
+  - destruct h as [t0|].
+    + dif H E. injection H as <-. exact E.
+    + destruct l as [|x r]; [discriminate H|]. destruct (scalar_ty x) as [te|]; [|discriminate H].
+      cbv zeta in H. dif H E. injection H as <-. exact E.
+Qed.
+
+Lemma lookup_sound M st x t : store_ok M st -> PM.find x M = Some t ->
+  res_ok (fun v => has_ty t v = true) (lookup st x).
+Proof. intros Hst H. unfold lookup. destruct (Hst x t H) as [v [-> Hv]]. exact Hv. Qed.
+
+Lemma static_nat_inv b n : static_nat b = Some n ->
+  exists z, b = ELit (VI z) /\ nat_ok z = true /\ n = Z.to_N z.
+Proof.
+  destruct b as [v| | | | | | | | |]; cbn [static_nat]; try discriminate.
+  destruct v as [| | |z| |]; try discriminate.
+  destruct (nat_ok z) eqn:E; [|discriminate]. intros [= <-]. eauto.
+Qed.
+
+(** ** 1. expressions *)
+
+Theorem wt_sound : forall G sg vr ev e h t,
+  store_ok G.(te_sig) sg -> store_ok G.(te_var) vr -> typeof G h e = Some t ->
+  res_ok (fun v => has_ty t v = true) (eval sg vr ev e).
+Proof.
+  intros G sg vr ev e h t Hsg Hvr. revert h t.
+  induction e as [v|x|x|a IHa i IHi|a IHa hi lo|op a IHa|op a IHa b IHb|f a IHa|f a IHa b IHb|r x];
+    intros h t Ht; cbn [typeof eval] in Ht |- *.
+  - cbn [res_ok]. eapply lit_ty_sound; eauto.
+  - eapply lookup_sound; eauto.
+  - eapply lookup_sound; eauto.
+  - destruct (typeof G None i) as [ti|] eqn:Ei; [|discriminate Ht].
+    destruct ti; try discriminate Ht.
+    destruct (typeof G None a) as [ta|] eqn:Ea; [|discriminate Ht].
+    apply (res_ok_bind (fun v => has_ty ta v = true)); [exact (IHa None ta Ea)|]. intros xa _ Hxa.
+    apply (res_ok_bind (fun v => has_ty TInt v = true)); [exact (IHi None TInt Ei)|]. intros xn _ Hxn.
+    destruct ta as [| | |k w| |id n el]; try discriminate Ht.
+    + dif Ht E. injection Ht as <-. eapply index_vec_sound; eauto.
+    + dif Ht E. injection Ht as <-. eapply index_arr_sound; eauto.
+  - destruct (typeof G None a) as [ta|] eqn:Ea; [|discriminate Ht].
+    apply (res_ok_bind (fun v => has_ty ta v = true)); [exact (IHa None ta Ea)|]. intros xa _ Hxa.
+    destruct ta as [| | |k w| |]; try discriminate Ht.
+    dif Ht E. injection Ht as <-. eapply slice_sound; eassumption.
+  - destruct (typeof G None a) as [ta|] eqn:Ea; [|discriminate Ht].
+    apply (res_ok_bind (fun v => has_ty ta v = true)); [exact (IHa None ta Ea)|]. intros xa _ Hxa.
+    eapply unop_sound; eauto.
+  - assert (K : exists ha hb ta tb, typeof G ha a = Some ta /\ typeof G hb b = Some tb /\ binop_ty op ta tb = Some t).
+    { destruct (is_cmp op).
+      - destruct (typeof G None a) as [ta0|] eqn:Ea0.
+        + destruct (typeof G (Some ta0) b) as [tb|] eqn:Eb; [|discriminate Ht].
+          exists None, (Some ta0), ta0, tb. auto.
+        + destruct (typeof G None b) as [tb|] eqn:Eb; [|discriminate Ht].
+          destruct (typeof G (Some tb) a) as [ta|] eqn:Ea; [|discriminate Ht].
+          exists (Some tb), None, ta, tb. auto.
+      - destruct (typeof G None a) as [ta|] eqn:Ea; [|discriminate Ht].
+        destruct (typeof G None b) as [tb|] eqn:Eb; [|discriminate Ht].
+        exists None, None, ta, tb. auto. }
+    destruct K as [ha [hb [ta [tb [Ea [Eb Hop]]]]]].
+    apply (res_ok_bind (fun v => has_ty ta v = true)); [exact (IHa ha ta Ea)|]. intros xa _ Hxa.
+    apply (res_ok_bind (fun v => has_ty tb v = true)); [exact (IHb hb tb Eb)|]. intros xb _ Hxb.
+    eapply binop_sound; eauto.
+  - destruct (typeof G None a) as [ta|] eqn:Ea; [|discriminate Ht].
+    apply (res_ok_bind (fun v => has_ty ta v = true)); [exact (IHa None ta Ea)|]. intros xa _ Hxa.
+    eapply fn1_sound; eauto.
+  - destruct (typeof G None a) as [ta|] eqn:Ea; [|discriminate Ht].
+    destruct (typeof G None b) as [tb|] eqn:Eb; [|discriminate Ht].
+    apply (res_ok_bind (fun v => has_ty ta v = true)); [exact (IHa None ta Ea)|]. intros xa _ Hxa.
+    apply (res_ok_bind (fun v => has_ty tb v = true)); [exact (IHb None tb Eb)|]. intros xb Exb Hxb.
+    eapply fn2_sound; eauto.
+    intros n Hn. apply static_nat_inv in Hn. destruct Hn as [z [-> [Hz ->]]].
+    cbn [eval] in Exb. injection Exb as <-. eauto.
+  - destruct (PM.find x (te_sig G)) as [tx|] eqn:Ex; [|discriminate Ht].
+    destruct tx; try discriminate Ht. injection Ht as <-.
+    apply (res_ok_bind (fun v => has_ty TLogic v = true)); [eapply lookup_sound; eauto|]. intros xv _ Hxv.
+    inv_ty. reflexivity.
+Qed.
+
+(** ** 2. assignment targets and statements *)
+
+Lemma ty_eqb_eq a b : ty_eqb a b = true -> a = b.
+Proof.
+  revert b. induction a as [| | |k w|i n|i n e IH]; intros b; destruct b; cbn [ty_eqb]; try discriminate; try reflexivity.
+  - rewrite andb_true_iff, vkind_eqb_ok, N.eqb_eq. intros [-> ->]; reflexivity.
+  - rewrite andb_true_iff, Pos.eqb_eq, N.eqb_eq. intros [-> ->]; reflexivity.
+  - rewrite !andb_true_iff, Pos.eqb_eq, N.eqb_eq. intros [[-> ->] H]. f_equal. apply IH; exact H.
+Qed.
+
+Lemma ty_is_eq o t : ty_is o t = true -> o = Some t.
+Proof. destruct o as [t'|]; cbn [ty_is]; [|discriminate]. intros H. apply ty_eqb_eq in H. congruence. Qed.
+
+Lemma vkind_eqb_refl k : vkind_eqb k k = true.
+Proof. apply vkind_eqb_ok; reflexivity. Qed.
+
+Lemma has_ty_shape_eqb : forall t a b, has_ty t a = true -> has_ty t b = true -> shape_eqb a b = true.
+Proof.
+  induction t as [| | |k w|i n|i n e IH]; intros a b Ha Hb.
+  - inv_ty; reflexivity.
+  - inv_ty; reflexivity.
+  - inv_ty; reflexivity.
+  - inv_ty. cbn [shape_eqb]. rewrite vkind_eqb_refl, N.eqb_refl. reflexivity.
+  - inv_ty; reflexivity.
+  - apply has_ty_arr in Ha. destruct Ha as [l [-> [Hl Hf]]].
+    apply has_ty_arr in Hb. destruct Hb as [l' [-> [Hl' Hf']]].
+    assert (Hlen : length l = length l') by lia. clear Hl Hl'.
+    cbn [shape_eqb].
+    revert l' Hf' Hlen. induction l as [|x r IHr]; intros [|y r'] Hf' Hlen; cbn [length] in Hlen; try discriminate Hlen.
+    + reflexivity.
+    + cbn [forallb] in Hf, Hf'. apply andb_true_iff in Hf. apply andb_true_iff in Hf'.
+      destruct Hf as [Hx Hr], Hf' as [Hy Hr'].
+      rewrite (IH x y Hx Hy). cbn [andb]. apply IHr; try assumption. lia.
+Qed.
+
+Lemma list_set_length {A} (l : list A) n x : length (list_set l n x) = length l.
+Proof.
+  revert n; induction l as [|y r IH]; intros [|n]; cbn [list_set length]; try reflexivity.
+  rewrite IH; reflexivity.
+Qed.
+
+Lemma list_set_forallb {A} (p : A -> bool) l n x :
+  forallb p l = true -> p x = true -> forallb p (list_set l n x) = true.
+Proof.
+  revert n; induction l as [|y r IH]; intros [|n] Hl Hx; cbn [list_set forallb] in *; try reflexivity.
+  - apply andb_true_iff in Hl. destruct Hl as [_ Hr]. rewrite Hx, Hr. reflexivity.
+  - apply andb_true_iff in Hl. destruct Hl as [Hy Hr]. rewrite Hy, IH by assumption. reflexivity.
+Qed.
+
+Lemma setslice_arith v A B C x : 0 < A -> 0 < B -> 0 < C -> 0 <= v < A * B * C ->
+  0 <= v - ((v / A) mod B) * A + (x mod B) * A < A * B * C.
+Proof.
+  intros HA HB HC Hv.
+  pose proof (Z.div_mod v A ltac:(lia)) as E1. pose proof (Z.mod_pos_bound v A HA) as B1.
+  pose proof (Z.div_mod (v / A) B ltac:(lia)) as E2. pose proof (Z.mod_pos_bound (v / A) B HB) as B2.
+  pose proof (Z.mod_pos_bound x B HB) as B3.
+  assert (Hq : 0 <= v / A) by (apply Z.div_pos; lia).
+  assert (Hq2 : 0 <= v / A / B) by (apply Z.div_pos; lia).
+  remember (v / A) as q eqn:Eq. remember (v mod A) as r0 eqn:Er0.
+  remember (q / B) as q2 eqn:Eq2. remember (q mod B) as m eqn:Em. remember (x mod B) as x' eqn:Ex'.
+  clear Eq Er0 Eq2 Em Ex'.
+  assert (HAB : 0 < A * B) by nia.
+  assert (Hlt : q2 < C).
+  { destruct (Z.lt_ge_cases q2 C) as [|Hge]; [assumption|]. exfalso.
+    assert (A * B * C <= A * B * q2) by (apply Z.mul_le_mono_nonneg_l; lia). nia. }
+  assert (H1 : x' * A <= (B - 1) * A) by (apply Z.mul_le_mono_nonneg_r; lia).
+  assert (H2 : A * B * (q2 + 1) <= A * B * C) by (apply Z.mul_le_mono_nonneg_l; lia).
+  assert (H3 : 0 <= A * B * q2) by (apply Z.mul_nonneg_nonneg; lia).
+  assert (H4 : 0 <= x' * A) by (apply Z.mul_nonneg_nonneg; lia).
+  subst v q. nia.
+Qed.
+
+Lemma setslice_range v lo len x w : 0 <= v < pow2 w -> (lo + len <= w)%N ->
+  0 <= setslice v lo len x < pow2 w.
+Proof.
+  intros Hv Hw. unfold setslice, getslice.
+  assert (E : pow2 w = pow2 lo * pow2 len * pow2 (w - lo - len)).
+  { rewrite <- !pow2_add. f_equal. lia. }
+  rewrite E in *. apply setslice_arith; try apply pow2_pos. exact Hv.
+Qed.
+
+Lemma write_sound G sg vr ev : store_ok G.(te_sig) sg -> store_ok G.(te_var) vr ->
+  forall p t pt x, path_ty G t p = Some pt -> has_ty pt x = true ->
+  res_ok (fun rp => forall base, has_ty t base = true ->
+                    res_ok (fun nv => has_ty t nv = true) (apply_write base rp x))
+         (resolve sg vr ev p).
+Proof.
+  intros Hsg Hvr. induction p as [|s r IH]; intros t pt x Hp Hx.
+  - cbn [path_ty] in Hp. injection Hp as <-. cbn [resolve res_ok]. intros base Hb. cbn [apply_write].
+    rewrite (has_ty_shape_eqb t base x Hb Hx). exact Hx.
+  - destruct s as [i|hi lo]; cbn [path_ty] in Hp; cbn [resolve].
+    + destruct (typeof G None i) as [ti|] eqn:Ei; [|discriminate Hp]. destruct ti; try discriminate Hp.
+      apply (res_ok_bind (fun v => has_ty TInt v = true)); [exact (wt_sound G sg vr ev i None TInt Hsg Hvr Ei)|].
+      intros n _ Hn. apply has_ty_int in Hn. destruct Hn as [z ->].
+      destruct (0 <=? z); [|reflexivity].
+      destruct t as [| | |k w| |id m el]; try discriminate Hp.
+      * destruct r as [|s' r']; [|discriminate Hp]. dif Hp E. injection Hp as <-.
+        cbn [resolve bind res_ok]. intros base Hb.
+        apply has_ty_vec in Hb. destruct Hb as [v [-> Hv]].
+        apply has_ty_logic in Hx. destruct Hx as [b ->].
+        cbn [apply_write]. destruct (N.ltb_spec (Z.to_N z) w) as [Hlt|Hge]; [|reflexivity].
+        cbn [res_ok]. apply has_ty_vec_intro. unfold setbit. apply setslice_range; [exact Hv|lia].
+      * dif Hp E.
+        apply (res_ok_bind (fun rp => forall base, has_ty el base = true ->
+                 res_ok (fun nv => has_ty el nv = true) (apply_write base rp x))); [exact (IH el pt x Hp Hx)|].
+        intros rp _ Hrp. cbn [res_ok]. intros base Hb.
+        apply has_ty_arr in Hb. destruct Hb as [l [-> [Hl Hf]]].
+        cbn [apply_write]. destruct (nth_error l (N.to_nat (Z.to_N z))) as [elv|] eqn:En; [|reflexivity].
+        apply (res_ok_bind (fun nv => has_ty el nv = true)); [apply Hrp; eapply forallb_nth_error; eauto|].
+        intros nv _ Hnv. cbn [res_ok has_ty]. rewrite list_set_length.
+        apply andb_true_iff. split; [apply N.eqb_eq; exact Hl|apply list_set_forallb; assumption].
+    + destruct t as [| | |k w| |]; try discriminate Hp.
+      destruct r as [|s' r']; [|discriminate Hp]. dif Hp E. injection Hp as <-.
+      cbn [resolve bind res_ok]. intros base Hb.
+      apply has_ty_vec in Hb. destruct Hb as [v [-> Hv]].
+      apply has_ty_vec in Hx. destruct Hx as [v' [-> Hv']].
+      cbn [apply_write].
+      replace (vkind_eqb k k) with true by (symmetry; apply vkind_eqb_ok; reflexivity).
+      rewrite E, N.eqb_refl. cbn [negb res_ok].
+      apply andb_true_iff in E. destruct E as [E1 E2]. apply N.leb_le in E1. apply N.ltb_lt in E2.
+      apply has_ty_vec_intro, setslice_range; [exact Hv|lia].
+Qed.
+
+Lemma apply_write_sound G sg vr ev t p pt base x rp :
+  store_ok G.(te_sig) sg -> store_ok G.(te_var) vr ->
+  path_ty G t p = Some pt -> resolve sg vr ev p = Ok rp ->
+  has_ty t base = true -> has_ty pt x = true ->
+  res_ok (fun nv => has_ty t nv = true) (apply_write base rp x).
+Proof.
+  intros Hsg Hvr Hp Hr Hb Hx.
+  pose proof (write_sound G sg vr ev Hsg Hvr p t pt x Hp Hx) as W.
+  rewrite Hr in W. exact (W base Hb).
+Qed.
+
+Lemma wt_assign_inv G M root path e : wt_assign G M root path e = true ->
+  exists t pt, PM.find root M = Some t /\ path_ty G t path = Some pt /\ typeof G (Some pt) e = Some pt.
+Proof.
+  unfold wt_assign. destruct (PM.find root M) as [t|] eqn:Er; [|discriminate].
+  destruct (path_ty G t path) as [pt|] eqn:Ep; [|discriminate].
+  intros H. apply ty_is_eq in H. exists t, pt. split; [reflexivity|]. split; [exact Ep|exact H].
+Qed.
+
+Lemma assign_sound G sg vr ev M st root path e B (Q : B -> Prop) (k : value -> list rsel -> value -> res B) t pt :
+  store_ok G.(te_sig) sg -> store_ok G.(te_var) vr -> store_ok M st ->
+  PM.find root M = Some t -> path_ty G t path = Some pt -> typeof G (Some pt) e = Some pt ->
+  (forall x rp nv, has_ty t nv = true -> res_ok Q (k x rp nv)) ->
+  res_ok Q (do x <- eval sg vr ev e; do rp <- resolve sg vr ev path; do base <- lookup st root;
+            do nv <- apply_write base rp x; k x rp nv).
+Proof.
+  intros Hsg Hvr Hst Hroot Hp He Hk.
+  apply (res_ok_bind (fun v => has_ty pt v = true)); [exact (wt_sound G sg vr ev e (Some pt) pt Hsg Hvr He)|].
+  intros x _ Hx.
+  eapply res_ok_bind; [exact (write_sound G sg vr ev Hsg Hvr path t pt x Hp Hx)|].
+  intros rp _ Hrp.
+  apply (res_ok_bind (fun v => has_ty t v = true)); [exact (lookup_sound M st root t Hst Hroot)|].
+  intros base _ Hb.
+  apply (res_ok_bind (fun v => has_ty t v = true)); [exact (Hrp base Hb)|].
+  intros nv _ Hnv. apply Hk. exact Hnv.
+Qed.
+
+Lemma store_ok_add M st root t nv : store_ok M st -> PM.find root M = Some t -> has_ty t nv = true ->
+  store_ok M (PM.add root nv st).
+Proof.
+  intros Hst Hroot Hnv x t' Hx. destruct (Pos.eq_dec x root) as [->|Hne].
+  - rewrite PM.gss. rewrite Hroot in Hx. injection Hx as <-. eauto.
+  - rewrite PM.gso by exact Hne. apply Hst. exact Hx.
+Qed.
+
+Section Exec.
+  Variable G : tenv.
+  Variables (sg : store) (ev : PS.t).
+  Hypothesis Hsg : store_ok G.(te_sig) sg.
+
+  Definition stmt_ok (s : stmt) : Prop :=
+    forall vr pend, wt_stmt G s = true -> store_ok G.(te_var) vr ->
+      res_ok (fun r => store_ok G.(te_var) (fst r)) (exec sg ev s vr pend).
+
+  Definition arms_ok (a : arms) : Prop :=
+    forall t v vr pend, wt_arms G t a = true -> store_ok G.(te_var) vr ->
+      res_ok (fun r => store_ok G.(te_var) (fst r)) (exec_arms sg ev v a vr pend).
+
+  Fixpoint exec_sound_stmt (s : stmt) {struct s} : stmt_ok s
+  with exec_sound_arms (a : arms) {struct a} : arms_ok a.
+  Proof.
+    - destruct s as [|root path e|root path e|c a b|e ar|a b|c]; unfold stmt_ok; intros vr pend Hwt Hvr;
+        cbn [wt_stmt] in Hwt; cbn [exec].
+      + exact Hvr.
+      + apply wt_assign_inv in Hwt. destruct Hwt as [t [pt [Hroot [Hp He]]]].
+        apply (assign_sound G sg vr ev (te_sig G) sg root path e _ _
+                 (fun x rp _ => Ok (vr, (root, rp, x) :: pend)) t pt Hsg Hvr Hsg Hroot Hp He).
+        intros x rp nv _. exact Hvr.
+      + apply wt_assign_inv in Hwt. destruct Hwt as [t [pt [Hroot [Hp He]]]].
+        apply (assign_sound G sg vr ev (te_var G) vr root path e _ _
+                 (fun _ _ nv => Ok (PM.add root nv vr, pend)) t pt Hsg Hvr Hvr Hroot Hp He).
+        intros x rp nv Hnv. cbn [res_ok fst]. eapply store_ok_add; eauto.
+      + apply andb_true_iff in Hwt. destruct Hwt as [Hwt Hb]. apply andb_true_iff in Hwt. destruct Hwt as [Hc Ha].
+        apply ty_is_eq in Hc.
+        apply (res_ok_bind (fun v => has_ty TBool v = true)); [exact (wt_sound G sg vr ev c None TBool Hsg Hvr Hc)|].
+        intros cv _ Hcv. apply has_ty_bool in Hcv. destruct Hcv as [[|] ->].
+        * exact (exec_sound_stmt a vr pend Ha Hvr).
+        * exact (exec_sound_stmt b vr pend Hb Hvr).
+      + destruct (typeof G None e) as [t|] eqn:Ee; [|discriminate Hwt].
+        apply (res_ok_bind (fun v => has_ty t v = true)); [exact (wt_sound G sg vr ev e None t Hsg Hvr Ee)|].
+        intros v _ _. exact (exec_sound_arms ar t v vr pend Hwt Hvr).
+      + apply andb_true_iff in Hwt. destruct Hwt as [Ha Hb].
+        apply (res_ok_bind (fun r => store_ok G.(te_var) (fst r))); [exact (exec_sound_stmt a vr pend Ha Hvr)|].
+        intros r _ Hr. exact (exec_sound_stmt b (fst r) (snd r) Hb Hr).
+      + apply ty_is_eq in Hwt.
+        apply (res_ok_bind (fun v => has_ty TBool v = true)); [exact (wt_sound G sg vr ev c None TBool Hsg Hvr Hwt)|].
+        intros cv _ Hcv. apply has_ty_bool in Hcv. destruct Hcv as [bb ->]. exact Hvr.
+    - destruct a as [[s|]|chs s r]; unfold arms_ok; intros t v vr pend Hwt Hvr;
+        cbn [wt_arms] in Hwt; cbn [exec_arms].
+      + exact (exec_sound_stmt s vr pend Hwt Hvr).
+      + exact Hvr.
+      + apply andb_true_iff in Hwt. destruct Hwt as [Hwt Hr]. apply andb_true_iff in Hwt. destruct Hwt as [_ Hs].
+        destruct (existsb (choice_eqb v) chs).
+        * exact (exec_sound_stmt s vr pend Hs Hvr).
+        * exact (exec_sound_arms r t v vr pend Hr Hvr).
+  Qed.
+End Exec.
+
+Theorem exec_sound : forall G sg ev, store_ok G.(te_sig) sg ->
+  forall s vr pend, wt_stmt G s = true -> store_ok G.(te_var) vr ->
+  res_ok (fun r => store_ok G.(te_var) (fst r)) (exec sg ev s vr pend).
+Proof. intros G sg ev Hsg s vr pend Hwt Hvr. exact (exec_sound_stmt G sg ev Hsg s vr pend Hwt Hvr). Qed.
+
+(** ** 3. concurrent statements *)
+
+Lemma select_alt_typed G pt v alts others e :
+  forallb (fun a => forallb (choice_ok v) (fst a) && ty_is (typeof G (Some pt) (snd a)) pt) alts = true ->
+  match others with Some e => ty_is (typeof G (Some pt) e) pt | None => true end = true ->
+  forall x, select_alt x alts others = Some e -> typeof G (Some pt) e = Some pt.
+Proof.
+  intros Ha Ho x. induction alts as [|[chs e'] r IH]; cbn [select_alt].
+  - intros ->. apply ty_is_eq. exact Ho.
+  - cbn [forallb fst snd] in Ha. apply andb_true_iff in Ha. destruct Ha as [Ha Hr].
+    apply andb_true_iff in Ha. destruct Ha as [_ He'].
+    destruct (existsb (choice_eqb x) chs).
+    + intros [= <-]. apply ty_is_eq. exact He'.
+    + apply IH. exact Hr.
+Qed.
+
+Theorem run_conc_sound : forall G sg vr ev c,
+  store_ok G.(te_sig) sg -> store_ok G.(te_var) vr -> wt_conc G c = true ->
+  res_ok (fun r => store_ok G.(te_var) (fst r)) (run_conc sg vr ev c).
+Proof.
+  intros G sg vr ev c Hsg Hvr Hwt. destruct c as [root path e|root path s alts others|lbl sens body];
+    cbn [wt_conc] in Hwt; cbn [run_conc].
+  - apply wt_assign_inv in Hwt. destruct Hwt as [t [pt [Hroot [Hp He]]]].
+    apply (assign_sound G sg vr ev (te_sig G) sg root path e _ _
+             (fun x rp _ => Ok (vr, [(root, rp, x)])) t pt Hsg Hvr Hsg Hroot Hp He).
+    intros x rp nv _. exact Hvr.
+  - destruct (typeof G None s) as [t|] eqn:Es; [|discriminate Hwt].
+    destruct (PM.find root (te_sig G)) as [rt|] eqn:Hroot; [|discriminate Hwt].
+    destruct (path_ty G rt path) as [pt|] eqn:Hp; [|discriminate Hwt].
+    apply andb_true_iff in Hwt. destruct Hwt as [Ha Ho].
+    apply (res_ok_bind (fun v => has_ty t v = true)); [exact (wt_sound G sg vr ev s None t Hsg Hvr Es)|].
+    intros v _ _. destruct (select_alt v alts others) as [e|] eqn:Esel; [|reflexivity].
+    pose proof (select_alt_typed G pt t alts others e Ha Ho v Esel) as He.
+    apply (assign_sound G sg vr ev (te_sig G) sg root path e _ _
+             (fun x rp _ => Ok (vr, [(root, rp, x)])) rt pt Hsg Hvr Hsg Hroot Hp He).
+    intros x rp nv _. exact Hvr.
+  - apply andb_true_iff in Hwt. destruct Hwt as [_ Hb].
+    apply (res_ok_bind (fun r => store_ok G.(te_var) (fst r))); [exact (exec_sound G sg ev Hsg body vr [] Hb Hvr)|].
+    intros r _ Hr. exact Hr.
+Qed.
+
+(** ** 4. non-vacuity *)
+
+Lemma store_ok_empty st : store_ok (PM.empty ty) st.
+Proof. intros x t H. rewrite PM.gempty in H. discriminate H. Qed.
+
+Lemma store_ok_add2 M st x t v : store_ok M st -> has_ty t v = true -> store_ok (PM.add x t M) (PM.add x v st).
+Proof.
+  intros Hst Hv y t' Hy. destruct (Pos.eq_dec y x) as [->|Hne].
+  - rewrite PM.gss in Hy |- *. injection Hy as <-. eauto.
+  - rewrite PM.gso in Hy |- * by exact Hne. apply Hst. exact Hy.
+Qed.
+
+Definition ex_G : tenv :=
+  {| te_sig := PM.add 2%positive (TVec KUns 3) (PM.add 1%positive (TVec KUns 3) (PM.empty ty));
+     te_var := PM.empty ty |}.
+Definition ex_sg : store :=
+  PM.add 2%positive (VV KUns 3 6) (PM.add 1%positive (VV KUns 3 5) (PM.empty value)).
+
+Lemma ex_sg_ok : store_ok ex_G.(te_sig) ex_sg.
+Proof. unfold ex_G, ex_sg; cbn [te_sig]. repeat apply store_ok_add2; try reflexivity. apply store_ok_empty. Qed.
+
+Example wt_sound_nonvacuous : exists G sg vr e t,
+  store_ok G.(te_sig) sg /\ store_ok G.(te_var) vr /\ typeof G None e = Some t /\
+  exists v, eval sg vr PS.empty e = Ok v /\ has_ty t v = true.
+Proof.
+  exists ex_G, ex_sg, (PM.empty value), (EBin OAdd (ESig 1%positive) (ESig 2%positive)), (TVec KUns 3).
+  split; [exact ex_sg_ok|]. split; [apply store_ok_empty|]. split; [reflexivity|].
+  exists (VV KUns 3 3). split; reflexivity.
+Qed.
+
+Example wt_rejects_uminus_unsigned :
+  store_ok ex_G.(te_sig) ex_sg /\ store_ok ex_G.(te_var) (PM.empty value) /\
+  typeof ex_G None (EUn UNeg (ESig 1%positive)) = None /\
+  eval ex_sg (PM.empty value) PS.empty (EUn UNeg (ESig 1%positive)) = Err ETypeError.
+Proof.
+  split; [exact ex_sg_ok|]. split; [apply store_ok_empty|]. split; reflexivity.
+Qed.
+
